@@ -1,12 +1,12 @@
 SPECIFICATION Spec
 CONSTANTS
-  KPairs <- EnvKPairs
-  Warms <- W4
-  Free = 3
-  Slices <- TSlices
-  Sels <- QSels
-  Items <- NoItems
-  Ops <- ScriptOps
+  KPairs <- IndexKPairs
+  Warms <- SW3
+  Free = 1
+  Slices <- IdxSlices
+  Sels <- QAllSels
+  Items <- QItems
+  Ops <- IndexOps
 INVARIANT Shape
 INVARIANT LenIsCalls
 INVARIANT KExact
